@@ -8,7 +8,7 @@ GEN = ["tables"]
 TRUSTED = ["model: Model/Syntax (hand-written mirror of parsing.rs / unicode_string.rs / glob.rs text handling; corresponded on every generated string)",
            "regex / globset validity of a pattern is an input to the model (asked from those crates directly)",
            "winnow is not modelled; stack depth is not expressible in the model (deep-nesting stream runs the real parser in a subprocess)"]
-ASSUMPTIONS = ["InvalidRegex spans come from regex-syntax and are only checked to lie inside the input (monitor), not reproduced by the model"]
+ASSUMPTIONS = ["InvalidRegex spans: the model computes them as ParseSingleError::invalid_regex does (start + the span regex-syntax blames, or the whole regex text when regex-syntax accepts what regex refuses); which of the two, and the blamed span, come from the oracle (the regex / regex-syntax crates called by the harness) and a blamed span is used only if it lies inside the text regex-syntax was given"]
 
 
 def unhex(h):
